@@ -7,8 +7,8 @@
    after the state/action/disturbance arguments in declaration order (one stacked vector p at
    compactness >= 1). *)
 From Coq Require Import Reals List.
-From SM.specs Require Import C03_spec.
-From SM.proofs Require Import Compiled.
+From SM.specs Require Import C03_spec SourceFacts_spec.
+From SM.proofs Require Import Compiled SourceFacts.
 
 Theorem C16_symbolic_parameters_are_values : symbolic_parameters_are_values.
 Proof. exact symbolic_parameters_are_values_proof. Qed.
@@ -16,3 +16,9 @@ Print Assumptions C16_symbolic_parameters_are_values.
 Theorem C16_parameters_trail_in_order : parameters_trail_in_order.
 Proof. exact parameters_trail_in_order_proof. Qed.
 Print Assumptions C16_parameters_trail_in_order.
+
+(* the test on `compact` in _add_parameters_to_inputs (read off engines/casadi.py on every run): separate trailing
+   arguments at every level <= 0, one stacked vector p at every level > 0 *)
+Theorem C16_parameters_separate_iff_level_le_0 : parameters_separate_iff_level_le_0.
+Proof. exact parameters_separate_iff_level_le_0_proof. Qed.
+Print Assumptions C16_parameters_separate_iff_level_le_0.
